@@ -45,7 +45,8 @@ T3 == [kind |-> "graph", container |-> "graph", cap |-> 4,
        init |-> << << 1, 2, 3 >>, << 4, 5 >>, << 6, 7 >>, << 8, 9 >> >>,
        edges |-> << << 0, 1 >>, << 1, 2 >>, << 1, 3 >>, << 2, 3 >> >>, ins |-> << 0, 0 >>, out |-> 3]
 
-Descs == {[kind |-> "sum"], [kind |-> "sumbuf"], [kind |-> "pass"]}
+\* Hold = a user node that writes nothing (its invocations are observed by the harness): what a wrapper must still call
+Descs == {[kind |-> "sum"], [kind |-> "sumbuf"], [kind |-> "pass"], Hold}
            \cup {DelayOf(ls) : ls \in {<< >>, << 1 >>, << 2, 4 >>, << 3, 1, 5 >>}}
            \cup {SignalOf(ch) : ch \in 1..(MaxBuf + 1)}
            \cup {T1(<< 0, 1 >>), T1(<< 1, 0, 2 >>), T2, T3}
@@ -113,7 +114,7 @@ SignalStreams ==
 ---------------------------------------------------------------------------
 (* stimuli: every case once, NCalls calls with seeded contents, wrappers in rotation *)
 WrappersOf(kind) ==
-  CASE kind \in {"sum", "sumbuf", "pass"} ->
+  CASE kind \in {"sum", "sumbuf", "pass", "hold"} ->
          << "plain", "ref", "box", "boxed", "boxed_send", "dyn_node", "dyn_fn", "dyn_fnmut", "fn" >>
     [] kind = "delay"  -> << "plain", "ref", "box", "boxed", "boxed_send", "dyn_node", "dyn_fnmut" >>
     [] kind = "signal" -> << "plain", "ref", "ref_dyn", "box", "boxed", "dyn_fnmut" >>
